@@ -21,7 +21,7 @@ def staged_corpus(rng, n):
 
 
 def corpus(ctx):
-    gs = [gen_graph.theory_example()] + gen_graph.incompatibility_chain_family()
+    gs = [gen_graph.theory_example(), gen_graph.cached_walk_rejoin_example()] + gen_graph.incompatibility_chain_family()
     if ctx.quick:
         gs += list(gen_graph.exhaustive_family(4, max_inc=1))
         rng = ctx.rng('graph')
